@@ -1,5 +1,5 @@
 CONSTANTS
-  Fam = "mac"
+  Fam = "cond"
   NM = 1
   KindSet = {"obj", "f0", "f1", "f2", "fv", "f1v"}
   MaxBody = 3
@@ -10,10 +10,10 @@ CONSTANTS
   InvHead = TRUE
   InvBal = TRUE
   NameScheme = 1
-  MaxLines = 1
-  MaxNest = 1
-  CondSet = {"0"}
-  LineSet = {"endif"}
+  MaxLines = 5
+  MaxNest = 3
+  CondSet = {"0", "1", "D", "BAD", "ifdef"}
+  LineSet = {"elif", "else", "endif", "def", "undef"}
   MaxD = 0
   AtomSet = {"0"}
   OpSet = {"+"}
